@@ -5,3 +5,4 @@ pub mod datagen;
 pub mod fsgen;
 pub mod scopegen;
 pub mod c17gen;
+pub mod bundlegen;
